@@ -17,6 +17,7 @@ PLOG_OPS = ["evaluate", "evaluate_propositions", "assume", "reduce", "negate", "
             "is_contradiction", "equation_bounds", "to_json", "to_text", "to_short", "to_b64", "to_ge_polyhedron", "solve", "b64_roundtrip"]
 CFG_OPS = ["ge_polyhedron", "default_prios", "leafs", "select", "select_failing_solver", "add", "json_roundtrip"]
 DERIVING = {"assume", "reduce", "negate", "add", "json_roundtrip", "b64_roundtrip"}
+LAST = {}
 
 
 def conv_interp(d):
@@ -131,7 +132,14 @@ def apply_op(obj, op, args):
             return [(None, 0, 4) for _ in objectives]
         return list(obj.select({}, solver=failing)), None
     if op == "add":
-        r = obj.add(recipes.build(args[0], {}))
+        rule = recipes.build(args[0], {})
+        before = object_state(rule) if not adapters.is_leaf(rule) else None
+        LAST.clear()
+        try:
+            r = obj.add(rule)
+        finally:
+            if before is not None:
+                LAST["argument"] = (before, object_state(rule))       # the rule that was handed over is another object: it must not change either
         return r, r
     if op == "json_roundtrip":
         data = json.loads(json.dumps(obj.to_json()))
